@@ -6,6 +6,7 @@ import (
 	"bytes"
 	"crypto/hmac"
 	"crypto/sha256"
+	"encoding/base64"
 	"fmt"
 	"io"
 
@@ -252,6 +253,83 @@ func checkC03(c *Ctx) {
 					g := &format.Stanza{Type: ty, Args: []string{"arg"}, Body: c.rng.bytes(c.rng.intn(60))}
 					h.Recipients = append(h.Recipients[:pos], append([]*format.Stanza{g}, h.Recipients[pos:]...)...)
 				})
+			}
+		}
+		// the body BYTES of a stanza laid out in lines of other sizes (47, 45, 24 bytes per line instead of 48): the same
+		// header to a parser that does not insist on full lines
+		for si := range h.Recipients {
+			if len(h.Recipients[si].Body) < 47 {
+				continue
+			}
+			for _, per := range []int{47, 45, 24, 46} {
+				var t []byte
+				t = append(t, []byte("age-encryption.org/v1\n")...)
+				for sj, st := range h.Recipients {
+					t = append(t, []byte("-> "+st.Type)...)
+					for _, a := range st.Args {
+						t = append(t, []byte(" "+a)...)
+					}
+					t = append(t, '\n')
+					width := 48
+					if sj == si {
+						width = per
+					}
+					b := st.Body
+					for {
+						n := len(b)
+						if n > width {
+							n = width
+						}
+						t = append(append(t, []byte(base64.RawStdEncoding.EncodeToString(b[:n]))...), '\n')
+						b = b[n:]
+						if n < width || (sj != si && n < 48) {
+							break
+						}
+						if len(b) == 0 {
+							t = append(t, '\n') // the (empty) short line that ends a body of full lines
+							break
+						}
+					}
+				}
+				t = append(t, []byte("--- "+base64.RawStdEncoding.EncodeToString(h.MAC)+"\n")...)
+				t = append(t, payload...)
+				c.c03Try("body-bytes-per-line", "header-relayout-accepted", file, t, openers[:1], in)
+			}
+		}
+		// the base64 body of each stanza wrapped at another width (same characters, other line breaks)
+		{
+			lines := bytes.SplitAfter(file[:hdrLen], []byte("\n"))
+			for li := 1; li < len(lines); li++ {
+				if !bytes.HasPrefix(lines[li], []byte("-> ")) {
+					continue
+				}
+				// the body lines of this stanza: up to the next "-> " or "---"
+				lj := li + 1
+				var body []byte
+				for lj < len(lines) && !bytes.HasPrefix(lines[lj], []byte("->")) && !bytes.HasPrefix(lines[lj], []byte("---")) {
+					body = append(body, bytes.TrimSuffix(lines[lj], []byte("\n"))...)
+					lj++
+				}
+				for _, w := range []int{63, 62, 48, 32, 65, 128} {
+					if len(body) < 40 && w > len(body) {
+						continue
+					}
+					var t []byte
+					for k := 0; k <= li; k++ {
+						t = append(t, lines[k]...)
+					}
+					rest := body
+					for len(rest) >= w {
+						t = append(append(t, rest[:w]...), '\n')
+						rest = rest[w:]
+					}
+					t = append(append(t, rest...), '\n')
+					for k := lj; k < len(lines); k++ {
+						t = append(t, lines[k]...)
+					}
+					t = append(t, payload...)
+					c.c03Try("body-rewrapped", "header-rewrap-accepted", file, t, openers[:1], in)
+				}
 			}
 		}
 		// alternative spellings of one header line: URL-safe base64 alphabet, padding, lower-cased type
